@@ -54,7 +54,7 @@ impl Parser {
     // `(self.parser.token_cost)(tidx)`: the user's cost function
     #[verifier::external_body] pub fn token_cost(&self, t: TIdx<$T>) -> (r: u8) ensures r == self.scost(t) { unimplemented!() }
     pub fn lexemes_len(&self) -> (r: usize) ensures r == self.nlexemes { self.nlexemes }
-    // lr_cactus(prefix, laidx, end, pstack, &mut None): LR parsing on a cactus stack until `end` (unit c07_lr has the Vec version)
+    // lr_cactus(prefix, laidx, end, pstack, &mut None): LR parsing on a cactus stack until `end`: bounds and non-empty stack proved in unit c05_cactus (the calls here pass end = laidx + 1)
     pub uninterp spec fn cact_la(&self, prefix: Option<LexemeT>, laidx: usize, end: usize, st: Seq<StIdx<$T>>) -> usize;
     pub uninterp spec fn cact_st(&self, prefix: Option<LexemeT>, laidx: usize, end: usize, st: Seq<StIdx<$T>>) -> Seq<StIdx<$T>>;
     #[verifier::external_body] pub fn lr_cactus(&self, lexeme_prefix: Option<LexemeT>, laidx: usize, end_laidx: usize, pstack: PStackC) -> (r: (usize, PStackC))
